@@ -5,6 +5,7 @@ cd "$(dirname "$0")"
 mkdir -p evidence replay
 fail=0
 for f in spec/*.tla; do
+  case "$f" in *_TTrace_*) continue;; esac   # error-trace specs TLC may leave behind are not part of the specification
   out=$(cd spec && java -cp /opt/veriftools/tla/tla2tools.jar:/opt/veriftools/tla/CommunityModules-deps.jar tla2sany.SANY "$(basename "$f")" 2>&1) || true
   if echo "$out" | grep -q -E "Semantic errors|Parse Error|\*\*\* Errors|Could not find module|Fatal errors"; then echo "SANY FAILED: $f"; echo "$out" | tail -20; fail=1; fi
 done
